@@ -113,7 +113,7 @@ class St:
 class AdnlWorld(HistoryWorld):
     name = 'ADNL'
     chunk = 10
-    legs = {'quick': [('channel', 6000), ('sign', 1600), ('mnemonic', 160), ('scripted', 256), ('drought', 16)],
+    legs = {'quick': [('channel', 6000), ('sign', 1000), ('mnemonic', 160), ('scripted', 256), ('drought', 16)],
             'thorough': [('channel', 200000), ('sign', 40000), ('mnemonic', 6000), ('scripted', 256), ('drought', 48)]}
     DROUGHTS = [257, 1025, 2049, 4097, 513, 2050, 8200, 1000, 3000, 5000, 300, 1500, 2500, 6000, 10001, 700]
     DROUGHTS_THOROUGH = [16385, 20000, 32769, 50000, 65537, 70000]
